@@ -124,6 +124,18 @@ def run(scenario):
                     bad.append("rent differs")
         elif scenario == "round-trip":
             bad = round_trip()
+        elif scenario == "no-group-entity":
+            tbs1 = taxbenefitsystems.TaxBenefitSystem([person])
+            tbs1.add_variable(salary)
+            sim = SimulationBuilder().build_from_dict(tbs1, {"persons": {"a": {"salary": {"2020-01": 10}}, "b": {"salary": {"2020-01": 20}}}})
+            with tempfile.TemporaryDirectory(dir="/var/tmp") as d:
+                simulation_dumper.dump_simulation(sim, d + "/dump")
+                try:
+                    sim2 = simulation_dumper.restore_simulation(d + "/dump", tbs1)
+                except Exception as e:
+                    return {"kind": "return", "value": {"ok": False, "detail": [f"a system without group entity: restore failed: {type(e).__name__}: {str(e)[:150]}"]}}
+                if sim2.persons.count != 2 or list(sim2.persons.ids) != ["a", "b"] or sim2.get_array("salary", "2020-01").tolist() != [10.0, 20.0]:
+                    bad.append("persons / salary differ after restoring a system without group entity")
         else:
             raise ValueError(scenario)
         return {"kind": "return", "value": {"ok": not bad, "detail": bad[:4]}}
